@@ -8,6 +8,9 @@ Re-run on every check.  Parses the *current* /repo sources with `ast` and writes
   Gen/Strategies.lean   CountingStrategy flags, matching / correction / construction presets
   Gen/Constants.lean    numeric / string constants used by the models
   Gen/SharedState.lean  inventory of class-level / module-level mutable state
+  Gen/Loops.lean        direct translation of the LOOP functions of src/common.py (for / while / list updates; see the
+                        section "LOOP functions" below), Gen/LoopsCigar.lean the CIGAR walkers, Gen/LoopsRt.lean their
+                        run-time helpers, Gen/Loops(Cigar)Ops.lean the driver handlers `Gen.<function>`
 
 A construct outside the supported subset raises TranslationError (a broken tie, handled by vcheck).
 Files are rewritten only when their content changes (so lake does not rebuild needlessly).
@@ -3254,6 +3257,807 @@ def gen_sample_names():
     return "\n".join(out), {"rename_exit_test": dict(rows)}
 
 
+# ---------------------------------------------------------------------------------------------------
+# C19 / C16: LOOP functions of src/common.py translated from the source (Gen/Loops.lean + Gen/LoopsOps.lean)
+# (added by the transl builder; add-only)
+#
+# Supported subset (anything else raises TranslationError -- never skipped):
+#   statements  x = e | x += e | x -= e | l[i] = e | l.append(e) | if/elif/else | while | for x in <list> |
+#               for i in range(..) | return e | break | continue | assert e | pass | docstring
+#   expressions int / bool constants, names, t[0] / t[1] on pairs, l[i] (Python semantics: negative index wraps,
+#               IndexError -> none), l[a:b], (a, b), [a, b, ..], [], l1 + l2, + - *, // (floor), unary -, not,
+#               and / or (short circuit: a failing right operand is not evaluated), chained comparisons (short
+#               circuit), min / max / abs / len, calls of the generated primitives and of earlier loop functions,
+#               [c for _ in range(n)], float(a) / float(b) (exact fraction; ZeroDivisionError -> none),
+#               math.inf (only in functions declared `inf`: an ARBITRARY integer parameter `inf_` of the Lean function,
+#               so a theorem about it quantifies over the sentinel value),
+#               CIGAR functions (declared `cigar`): CigarEvent(code) (ValueError -> none), CigarEvent.<member>, == / != of
+#               events, `ev in CigarEvent.get_match_events()` / `get_ins_del_match_events()` (the generated tables of
+#               Gen/CigarClasses.lean), None-able locals (`x = None`, `x is [not] None`, truth value of an int-or-None;
+#               any other use of such a local while it is None is an error (`none`) -- Python would store the None)
+# Translation scheme: continuation passing.  Code after a loop becomes `f.afterN`, the loop `f.loopN`:
+#   for x in l / for i in range(a, b)  -> structural recursion on the list (`pyRange a b` for ranges): no fuel
+#   while c                            -> recursion on `fuel_ : Nat`; the caller passes `f.fuelN params` (emitted);
+#                                         running out of fuel is `none`, so an insufficient bound is a visible
+#                                         disagreement in the self-check and breaks the refinement theorem
+# A function is emitted with a plain result type when it contains no failing construct (no list indexing, no
+# while, no assert, no division, no call of a partial function); otherwise its result is `Option T`, `none` = the
+# Python function raises.
+# ---------------------------------------------------------------------------------------------------
+import collections
+import re as _re
+
+LTY = {"Int": "Int", "Bool": "Bool", "Iv": "Iv", "ListIv": "List Iv", "ListInt": "List Int", "Frac": "Int × Int",
+       "ListIv3": "List Iv × List Iv × List Iv", "OptInt": "Option Int", "OptIv": "Option Iv", "CigarEvent": "CigarEvent"}
+LOPT = {"OptInt": "Int", "OptIv": "Iv"}     # None-able locals: `x = None` / `x = <value>`
+LELEM = {"ListIv": "Iv", "ListInt": "Int"}
+
+LOOPS_CIGAR_PRELUDE = '''/-- `CigarEvent(c)`; `none` = ValueError -/
+def pyCigarEvent (c : Int) : Option CigarEvent := if c < 0 then none else CigarEvent.ofValue? c.toNat
+
+/-- truth value of an `int`-or-`None` variable (`None` and `0` are falsy) -/
+def pyTruthyOptInt : Option Int → Bool
+  | none => false
+  | some v => v != 0
+'''
+
+LOOPS_PRELUDE = '''abbrev Frac := Int × Int
+
+/-- `len(l)` -/
+def pyLen {α} (l : List α) : Int := (l.length : Int)
+
+/-- `l[i]` with Python's negative-index wrap; `none` = IndexError -/
+def pyIdx {α} (l : List α) (i : Int) : Option α :=
+  if 0 ≤ i then l[i.toNat]?
+  else if -(l.length : Int) ≤ i then l[((l.length : Int) + i).toNat]?
+  else none
+
+/-- `l[i] = v`; `none` = IndexError -/
+def pySet {α} (l : List α) (i : Int) (v : α) : Option (List α) :=
+  if 0 ≤ i then (if i.toNat < l.length then some (l.set i.toNat v) else none)
+  else if -(l.length : Int) ≤ i then some (l.set ((l.length : Int) + i).toNat v)
+  else none
+
+/-- `l[a:b]` (negative indices wrap, both ends clamped) -/
+def pySlice {α} (l : List α) (a b : Int) : List α :=
+  let n : Int := l.length
+  let norm (i : Int) : Nat := (if i < 0 then max 0 (n + i) else min i n).toNat
+  (l.drop (norm a)).take (norm b - norm a)
+
+def pyRangeN (a : Int) : Nat → List Int
+  | 0 => []
+  | n + 1 => a :: pyRangeN (a + 1) n
+
+/-- `range(a, b)` -/
+def pyRange (a b : Int) : List Int := pyRangeN a (b - a).toNat
+
+/-- `float(a) / float(b)` as the exact fraction (a, b); `none` = ZeroDivisionError -/
+def pyDivF (a b : Int) : Option Frac := if b = 0 then none else some (a, b)
+
+/-- `a // b` (floor division); `none` = ZeroDivisionError -/
+def pyFloorDiv (a b : Int) : Option Int := if b = 0 then none else some (Int.fdiv a b)
+'''
+
+
+class NeedPartial(Exception):
+    pass
+
+
+class LEnv:
+    def __init__(self, vars=None, avail=None):
+        self.vars = collections.OrderedDict(vars or {})
+        self.avail = dict(avail or {})
+
+    def copy(self):
+        return LEnv(self.vars, self.avail)
+
+    def fresh_scope(self):
+        return LEnv(self.vars, {})
+
+    def assign(self, name, ty):
+        old = self.vars.get(name)
+        if old is not None and old != ty:
+            raise TranslationError("variable %s changes type %s -> %s" % (name, old, ty))
+        self.vars[name] = ty
+        pat = _re.compile(r"(?<![A-Za-z0-9_.])%s(?![A-Za-z0-9_])" % _re.escape(name))
+        for k in [k for k in self.avail if pat.search(k)]:
+            del self.avail[k]
+
+
+def _ind(lines, n=1):
+    return [("  " * n) + l for l in lines]
+
+
+def _has_loop(stmts):
+    for s in stmts:
+        for n in ast.walk(s):
+            if isinstance(n, (ast.While, ast.For)):
+                return True
+    return False
+
+
+class LoopFn:
+    """translation of one Python function"""
+
+    def __init__(self, name, fn, sig, partial, known):
+        self.name = name
+        self.fn = fn
+        self.sig = sig
+        self.partial = partial
+        self.known = known            # name -> (param types, ret type, partial?) of callable generated functions
+        self.params = ([("inf_", "Int")] if sig.get("inf") else []) + list(sig["params"])
+        self.uses_inf = False
+        self.ret_ty = sig["ret"]
+        self.hints = sig.get("locals", {})
+        self.defs = []
+        self.nloop = 0
+        self.ntmp = 0
+        self.fuels = []
+
+    # -- helpers
+    def need_partial(self, why):
+        if not self.partial:
+            raise NeedPartial(why)
+
+    def R(self):
+        t = LTY[self.ret_ty]
+        return ("Option (%s)" % t if " " in t else "Option %s" % t) if self.partial else t
+
+    def ret(self, txt):
+        return "some %s" % txt if self.partial else txt
+
+    def tmp(self, stem="t"):
+        self.ntmp += 1
+        return "%s%d_" % (stem, self.ntmp)
+
+    def param_names(self):
+        return " ".join(lean_ident(p) for p, _ in self.params)
+
+    def param_binders(self):
+        return " ".join("(%s : %s)" % (lean_ident(p), LTY[t]) for p, t in self.params)
+
+    def wrap(self, binds, lines):
+        for tmpn, opt in reversed(binds):
+            lines = ["match %s with" % opt, "| none => none", "| some %s =>" % tmpn] + _ind(lines)
+        return lines
+
+    def wrap_inline(self, binds, txt):
+        """Option-valued one-line expression: binds then `some txt`"""
+        res = "some %s" % txt
+        for tmpn, opt in reversed(binds):
+            res = "(match %s with | none => none | some %s => %s)" % (opt, tmpn, res)
+        return res
+
+    def bind(self, opt, env, binds, stem="t", cache=True):
+        self.need_partial(opt)
+        if cache and opt in env.avail:
+            return env.avail[opt]
+        t = self.tmp(stem)
+        binds.append((t, opt))
+        if cache:
+            env.avail[opt] = t
+        return t
+
+    # -- expressions
+    def ex(self, e, env, binds):
+        if isinstance(e, ast.Constant) and e.value is None:
+            return ("none", "None")
+        if isinstance(e, ast.Attribute) and isinstance(e.value, ast.Name) and e.value.id == "CigarEvent":
+            if e.attr not in self.sig.get("cigar_members", ()):
+                raise TranslationError("%s: unknown CigarEvent member %s" % (self.name, e.attr))
+            return ("CigarEvent.%s" % lean_ident(e.attr), "CigarEvent")
+        if isinstance(e, ast.Constant):
+            if isinstance(e.value, bool):
+                return ("true" if e.value else "false", "Bool")
+            if isinstance(e.value, int):
+                return ("%d" % e.value if e.value >= 0 else "(-%d)" % -e.value, "Int")
+            raise TranslationError("%s: unsupported constant %r" % (self.name, e.value))
+        if isinstance(e, ast.Name):
+            if e.id in env.vars and env.vars[e.id] in LOPT:
+                # a None-able variable used as a value: `None` here is outside the subset and becomes an error (`none`);
+                # the refinement theorem shows it cannot happen
+                return (self.bind(lean_ident(e.id), env, binds), LOPT[env.vars[e.id]])
+            if e.id in env.vars:
+                return (lean_ident(e.id), env.vars[e.id])
+            for p, t in self.params:
+                if p == e.id:
+                    return (lean_ident(p), t)
+            raise TranslationError("%s: unknown name %s (line %d)" % (self.name, e.id, e.lineno))
+        if isinstance(e, ast.Attribute) and isinstance(e.value, ast.Name) and e.value.id == "math" and e.attr == "inf":
+            if not self.sig.get("inf"):
+                raise TranslationError("%s: math.inf in a function not declared with an `inf` parameter" % self.name)
+            self.uses_inf = True
+            return ("inf_", "Int")
+        if isinstance(e, ast.Subscript):
+            base, bt = self.ex(e.value, env, binds)
+            if isinstance(e.slice, ast.Slice):
+                if bt not in LELEM or e.slice.step is not None:
+                    raise TranslationError("%s: unsupported slice" % self.name)
+                lo = self.ex(e.slice.lower, env, binds) if e.slice.lower is not None else ("0", "Int")
+                hi = self.ex(e.slice.upper, env, binds) if e.slice.upper is not None else ("(pyLen %s)" % base, "Int")
+                if lo[1] != "Int" or hi[1] != "Int":
+                    raise TranslationError("%s: slice bounds must be ints" % self.name)
+                return ("(pySlice %s %s %s)" % (base, lo[0], hi[0]), bt)
+            if bt in ("Iv", "Frac"):
+                if isinstance(e.slice, ast.Constant) and e.slice.value in (0, 1):
+                    return ("%s.%d" % (base, e.slice.value + 1), "Int")
+                raise TranslationError("%s: pair subscript must be the constant 0 or 1" % self.name)
+            if bt in LELEM:
+                idx, it = self.ex(e.slice, env, binds)
+                if it != "Int":
+                    raise TranslationError("%s: list index must be an int" % self.name)
+                t = self.bind("pyIdx %s %s" % (base, idx), env, binds)
+                return (t, LELEM[bt])
+            raise TranslationError("%s: subscript on %s" % (self.name, bt))
+        if isinstance(e, ast.Tuple):
+            parts = [self.ex(x, env, binds) for x in e.elts]
+            tys = [t for _, t in parts]
+            if tys == ["Int", "Int"]:
+                return ("(%s, %s)" % (parts[0][0], parts[1][0]), "Iv")
+            if tys == ["ListIv", "ListIv", "ListIv"]:
+                return ("(%s, %s, %s)" % tuple(p for p, _ in parts), "ListIv3")
+            raise TranslationError("%s: unsupported tuple of %s" % (self.name, tys))
+        if isinstance(e, ast.List):
+            if not e.elts:
+                return ("[]", "EmptyList")
+            parts = [self.ex(x, env, binds) for x in e.elts]
+            tys = set(t for _, t in parts)
+            if tys == {"Iv"}:
+                return ("[%s]" % ", ".join(p for p, _ in parts), "ListIv")
+            if tys == {"Int"}:
+                return ("[%s]" % ", ".join(p for p, _ in parts), "ListInt")
+            raise TranslationError("%s: unsupported list literal of %s" % (self.name, sorted(tys)))
+        if isinstance(e, ast.ListComp):
+            if len(e.generators) != 1 or e.generators[0].ifs or not isinstance(e.generators[0].target, ast.Name):
+                raise TranslationError("%s: unsupported comprehension" % self.name)
+            g = e.generators[0]
+            var = g.target.id
+            if any(isinstance(n, ast.Name) and n.id == var for n in ast.walk(e.elt)):
+                raise TranslationError("%s: comprehension element depends on the loop variable" % self.name)
+            it = g.iter
+            if not (isinstance(it, ast.Call) and isinstance(it.func, ast.Name) and it.func.id == "range" and len(it.args) == 1):
+                raise TranslationError("%s: comprehension must range over range(n)" % self.name)
+            n, nt = self.ex(it.args[0], env, binds)
+            v, vt = self.ex(e.elt, env, binds)
+            if nt != "Int" or vt not in ("Int", "Iv"):
+                raise TranslationError("%s: unsupported comprehension types" % self.name)
+            return ("(List.replicate (%s).toNat %s)" % (n, v), "ListInt" if vt == "Int" else "ListIv")
+        if isinstance(e, ast.UnaryOp):
+            if isinstance(e.op, ast.Not):
+                return ("(!%s)" % self.cond(e.operand, env, binds), "Bool")
+            a, ta = self.ex(e.operand, env, binds)
+            if isinstance(e.op, ast.USub) and ta == "Int":
+                return ("(-%s)" % a, "Int")
+            raise TranslationError("%s: unsupported unary op" % self.name)
+        if isinstance(e, ast.BinOp):
+            if isinstance(e.op, ast.Div):
+                l, r = e.left, e.right
+                def is_float(x):
+                    return isinstance(x, ast.Call) and isinstance(x.func, ast.Name) and x.func.id == "float" and len(x.args) == 1
+                if is_float(l) and is_float(r):
+                    a, ta = self.ex(l.args[0], env, binds)
+                    b, tb = self.ex(r.args[0], env, binds)
+                    if ta == "Int" and tb == "Int":
+                        t = self.bind("pyDivF %s %s" % (a, b), env, binds)
+                        return (t, "Frac")
+                raise TranslationError("%s: `/` is supported only as float(int) / float(int)" % self.name)
+            a, ta = self.ex(e.left, env, binds)
+            b, tb = self.ex(e.right, env, binds)
+            if isinstance(e.op, ast.Add) and ta in LELEM and tb in (ta, "EmptyList"):
+                return ("(%s ++ %s)" % (a, b), ta)
+            if isinstance(e.op, ast.Add) and ta == "EmptyList" and tb in LELEM:
+                return (b, tb)
+            if ta != "Int" or tb != "Int":
+                raise TranslationError("%s: arithmetic on %s, %s (line %d)" % (self.name, ta, tb, e.lineno))
+            if isinstance(e.op, ast.FloorDiv):
+                if isinstance(e.right, ast.Constant) and isinstance(e.right.value, int) and e.right.value > 0:
+                    return ("(%s / %s)" % (a, b), "Int")      # positive literal divisor: Int `/` (ediv) = floor
+                t = self.bind("pyFloorDiv %s %s" % (a, b), env, binds)
+                return (t, "Int")
+            for k, v in {ast.Add: "+", ast.Sub: "-", ast.Mult: "*"}.items():
+                if isinstance(e.op, k):
+                    return ("(%s %s %s)" % (a, v, b), "Int")
+            raise TranslationError("%s: unsupported binary op %s" % (self.name, type(e.op).__name__))
+        if isinstance(e, ast.BoolOp):
+            is_and = isinstance(e.op, ast.And)
+            parts = [("pure", self.cond(e.values[0], env, binds))]
+            for v in e.values[1:]:
+                parts.append(self.operand_sc(v, env))
+            return (self.short_circuit(parts, is_and, env, binds), "Bool")
+        if isinstance(e, ast.Compare):
+            return (self.compare(e, env, binds), "Bool")
+        if isinstance(e, ast.Call) and isinstance(e.func, ast.Name):
+            fn = e.func.id
+            if e.keywords:
+                raise TranslationError("%s: keyword arguments in call of %s" % (self.name, fn))
+            args = [self.ex(a, env, binds) for a in e.args]
+            tys = [t for _, t in args]
+            if fn in ("max", "min") and tys == ["Int", "Int"]:
+                return ("(%s %s %s)" % (fn, args[0][0], args[1][0]), "Int")
+            if fn == "abs" and tys == ["Int"]:
+                return ("(iabs %s)" % args[0][0], "Int")
+            if fn == "CigarEvent" and tys == ["Int"] and self.sig.get("cigar_members"):
+                return (self.bind("pyCigarEvent %s" % args[0][0], env, binds), "CigarEvent")
+            if fn == "len" and len(args) == 1 and tys[0] in LELEM:
+                return ("(pyLen %s)" % args[0][0], "Int")
+            if fn in PRIM_SIGS:
+                ptys = [t for _, t in PRIM_SIGS[fn][0]]
+                if tys != ptys:
+                    raise TranslationError("%s: call %s%s, expected %s" % (self.name, fn, tys, ptys))
+                return ("(%s %s)" % (fn, " ".join(a for a, _ in args)), PRIM_SIGS[fn][1])
+            if fn in self.known:
+                ptys, rty, part = self.known[fn]
+                if ptys[:1] == ["Inf"]:
+                    if not self.sig.get("inf"):
+                        raise TranslationError("%s: calls %s, which depends on math.inf" % (self.name, fn))
+                    ptys, args = ptys[1:], [("inf_", "Int")] + args
+                    tys = tys
+                    if tys != ptys:
+                        raise TranslationError("%s: call %s%s, expected %s" % (self.name, fn, tys, ptys))
+                elif tys != ptys:
+                    raise TranslationError("%s: call %s%s, expected %s" % (self.name, fn, tys, ptys))
+                call = "%s %s" % (fn, " ".join(a for a, _ in args))
+                if part:
+                    return (self.bind(call, env, binds), rty)
+                return ("(%s)" % call, rty)
+            raise TranslationError("%s: unsupported call %s (line %d)" % (self.name, fn, e.lineno))
+        raise TranslationError("%s: unsupported expression %s" % (self.name, ast.dump(e)[:80]))
+
+    def truth(self, txt, ty):
+        if ty == "Bool":
+            return txt
+        raise TranslationError("%s: truth value of a %s" % (self.name, ty))
+
+    def cond(self, e, env, binds):
+        """an expression in a Boolean context (if / while / assert / and / or / not)"""
+        if isinstance(e, ast.Name) and env.vars.get(e.id) == "OptInt":
+            return "(pyTruthyOptInt %s)" % lean_ident(e.id)
+        txt, t = self.ex(e, env, binds)
+        return self.truth(txt, t)
+
+    def operand_sc(self, v, env):
+        """an operand that Python may skip: translated in its own scope"""
+        lb = []
+        sub = env.copy()
+        txt = self.cond(v, sub, lb)
+        if not lb:
+            return ("pure", txt)
+        return ("opt", self.wrap_inline(lb, txt))
+
+    def short_circuit(self, parts, is_and, env, binds):
+        if all(k == "pure" for k, _ in parts):
+            return "(" + (" && " if is_and else " || ").join(p for _, p in parts) + ")"
+        stop = "some false" if is_and else "some true"
+        res = None
+        for kind, txt in reversed(parts):
+            if res is None:
+                res = ("some %s" % txt) if kind == "pure" else txt
+                continue
+            go, halt = (res, stop) if is_and else (stop, res)
+            if kind == "pure":
+                res = "(if %s then %s else %s)" % (txt, go, halt)
+            else:
+                c = self.tmp("b")
+                res = "(match %s with | none => none | some %s => if %s then %s else %s)" % (txt, c, c, go, halt)
+        return self.bind(res, env, binds, stem="c", cache=False)
+
+    CMP = {ast.Lt: "<", ast.LtE: "≤", ast.Gt: ">", ast.GtE: "≥", ast.Eq: "=", ast.NotEq: "≠"}
+
+    def cmp1(self, op, a, b):
+        (x, tx), (y, ty) = a, b
+        for k, v in self.CMP.items():
+            if isinstance(op, k):
+                if tx == "Int" and ty == "Int":
+                    return "decide (%s %s %s)" % (x, v, y)
+                if tx == ty and tx in ("Iv", "ListIv", "ListInt", "Bool", "CigarEvent") and v in ("=", "≠"):
+                    return "decide (%s %s %s)" % (x, v, y)
+                raise TranslationError("%s: comparison %s of %s and %s" % (self.name, v, tx, ty))
+        raise TranslationError("%s: unsupported comparison operator %s" % (self.name, type(op).__name__))
+
+    EVENT_SETS = {"get_match_events": "in_cigar_match_events", "get_ins_del_match_events": "in_cigar_ins_del_match_events"}
+
+    def compare(self, e, env, binds):
+        if len(e.ops) == 1 and isinstance(e.ops[0], (ast.Is, ast.IsNot)):
+            c = e.comparators[0]
+            if isinstance(c, ast.Constant) and c.value is None and isinstance(e.left, ast.Name) \
+                    and env.vars.get(e.left.id) in LOPT:
+                return "%s.%s" % (lean_ident(e.left.id), "isNone" if isinstance(e.ops[0], ast.Is) else "isSome")
+            raise TranslationError("%s: `is` is supported only as `<None-able local> is [not] None`" % self.name)
+        if len(e.ops) == 1 and isinstance(e.ops[0], (ast.In, ast.NotIn)):
+            c = e.comparators[0]
+            if isinstance(c, ast.Call) and isinstance(c.func, ast.Attribute) and isinstance(c.func.value, ast.Name) \
+                    and c.func.value.id == "CigarEvent" and c.func.attr in self.EVENT_SETS and not c.args \
+                    and self.sig.get("cigar_members"):
+                x, tx = self.ex(e.left, env, binds)
+                if tx != "CigarEvent":
+                    raise TranslationError("%s: membership of a %s in an event set" % (self.name, tx))
+                txt = "%s.%s" % (x, self.EVENT_SETS[c.func.attr])
+                return txt if isinstance(e.ops[0], ast.In) else "(!%s)" % txt
+            raise TranslationError("%s: `in` is supported only for CigarEvent.get_*_events()" % self.name)
+        left = self.ex(e.left, env, binds)
+        mid = self.ex(e.comparators[0], env, binds)
+        parts = [("pure", self.cmp1(e.ops[0], left, mid))]
+        prev = mid
+        for op, c in zip(e.ops[1:], e.comparators[1:]):
+            lb = []
+            sub = env.copy()
+            cur = self.ex(c, sub, lb)
+            txt = self.cmp1(op, prev, cur)
+            if lb:
+                parts.append(("opt", self.wrap_inline(lb, "(%s)" % txt)))
+                if c is not e.comparators[-1]:
+                    raise TranslationError("%s: failing operand in the middle of a comparison chain" % self.name)
+            else:
+                parts.append(("pure", txt))
+            prev = cur
+        if len(parts) == 1:
+            return "(%s)" % parts[0][1]
+        return self.short_circuit(parts, True, env, binds)
+
+    # -- statements
+    def call(self, fname, extra, state, env):
+        args = [self.param_names()] + extra + [lean_ident(v) for v in state]
+        return " ".join(a for a in args if a)
+
+    def block(self, stmts, env, K):
+        if not stmts:
+            return K["fall"](env)
+        s, rest = stmts[0], stmts[1:]
+        nm = self.name
+        if isinstance(s, ast.Expr) and isinstance(s.value, ast.Constant) and isinstance(s.value.value, str):
+            return self.block(rest, env, K)
+        if isinstance(s, ast.Pass):
+            return self.block(rest, env, K)
+        if isinstance(s, ast.Return):
+            if s.value is None:
+                raise TranslationError("%s: bare return" % nm)
+            binds = []
+            txt, t = self.ex(s.value, env, binds)
+            if t == "EmptyList" and self.ret_ty in LELEM:
+                t = self.ret_ty
+            if t != self.ret_ty:
+                raise TranslationError("%s: returns %s, expected %s (line %d)" % (nm, t, self.ret_ty, s.lineno))
+            if binds and binds[-1][0] == txt:       # `return <failing expression>`: its Option value is the result
+                return self.wrap(binds[:-1], [binds[-1][1]])
+            return self.wrap(binds, [self.ret(txt)])
+        if isinstance(s, ast.Break):
+            if "brk" not in K:
+                raise TranslationError("%s: break outside loop" % nm)
+            return K["brk"](env)
+        if isinstance(s, ast.Continue):
+            if "cont" not in K:
+                raise TranslationError("%s: continue outside loop" % nm)
+            return K["cont"](env)
+        if isinstance(s, ast.Assert):
+            self.need_partial("assert")
+            binds = []
+            c = self.cond(s.test, env, binds)
+            return self.wrap(binds, ["if %s then" % c] + _ind(self.block(rest, env, K)) + ["else", "  none"])
+        if isinstance(s, (ast.Assign, ast.AugAssign)):
+            if isinstance(s, ast.Assign):
+                if len(s.targets) != 1:
+                    raise TranslationError("%s: multiple assignment targets" % nm)
+                target, value = s.targets[0], s.value
+            else:
+                if not isinstance(s.op, (ast.Add, ast.Sub)):
+                    raise TranslationError("%s: unsupported augmented assignment" % nm)
+                target = s.target
+                load = ast.copy_location(ast.Name(id=target.id, ctx=ast.Load()), s) if isinstance(target, ast.Name) else None
+                if load is None:
+                    raise TranslationError("%s: augmented assignment to a non-name" % nm)
+                value = ast.copy_location(ast.BinOp(left=load, op=s.op, right=s.value), s)
+            binds = []
+            if isinstance(target, ast.Name):
+                name = target.id
+                pty = [t for p, t in self.params if p == name]
+                if pty and name not in env.vars:
+                    env = env.copy()
+                    env.vars[name] = pty[0]       # a re-assigned parameter becomes a local of the same type (shadowing)
+                if "loopvars" in K and name in K["loopvars"]:
+                    raise TranslationError("%s: assignment to the loop variable / iterated list %s" % (nm, name))
+                txt, t = self.ex(value, env, binds)
+                if t == "EmptyList":
+                    t = self.hints.get(name) or env.vars.get(name)
+                    if t is None:
+                        raise TranslationError("%s: type of the empty list %s unknown (add a `locals` hint)" % (nm, name))
+                    txt = "([] : %s)" % LTY[t]
+                want = env.vars.get(name) or self.hints.get(name)
+                if t == "None":
+                    if want not in LOPT:
+                        raise TranslationError("%s: `%s = None` needs a `locals` hint OptInt / OptIv" % (nm, name))
+                    t, txt = want, "(none : %s)" % LTY[want]
+                elif want in LOPT and t == LOPT[want]:
+                    t, txt = want, "(some %s)" % txt
+                env2 = env.copy()
+                env2.assign(name, t)
+                return self.wrap(binds, ["let %s := %s" % (lean_ident(name), txt)] + self.block(rest, env2, K))
+            if isinstance(target, ast.Subscript) and isinstance(target.value, ast.Name) and not isinstance(target.slice, ast.Slice):
+                name = target.value.id
+                if name not in env.vars or env.vars[name] not in LELEM:
+                    raise TranslationError("%s: item assignment to %s" % (nm, name))
+                idx, it = self.ex(target.slice, env, binds)
+                txt, t = self.ex(value, env, binds)
+                if it != "Int" or t != LELEM[env.vars[name]]:
+                    raise TranslationError("%s: item assignment types" % nm)
+                tmpn = self.bind("pySet %s %s %s" % (lean_ident(name), idx, txt), env, binds, stem="s", cache=False)
+                env2 = env.copy()
+                env2.assign(name, env.vars[name])
+                return self.wrap(binds, ["let %s := %s" % (lean_ident(name), tmpn)] + self.block(rest, env2, K))
+            raise TranslationError("%s: unsupported assignment target (line %d)" % (nm, s.lineno))
+        if isinstance(s, ast.Expr) and isinstance(s.value, ast.Call) and isinstance(s.value.func, ast.Attribute) \
+                and s.value.func.attr == "append" and isinstance(s.value.func.value, ast.Name) and len(s.value.args) == 1:
+            name = s.value.func.value.id
+            if name not in env.vars or env.vars[name] not in LELEM:
+                raise TranslationError("%s: append to %s" % (nm, name))
+            binds = []
+            txt, t = self.ex(s.value.args[0], env, binds)
+            if t != LELEM[env.vars[name]]:
+                raise TranslationError("%s: append of %s to %s" % (nm, t, env.vars[name]))
+            env2 = env.copy()
+            env2.assign(name, env.vars[name])
+            return self.wrap(binds, ["let %s := %s ++ [%s]" % (lean_ident(name), lean_ident(name), txt)] + self.block(rest, env2, K))
+        if isinstance(s, ast.If):
+            binds = []
+            c = self.cond(s.test, env, binds)
+            K2 = dict(K)
+            if rest and _has_loop(rest):
+                K2["fall"] = self.make_after(rest, env, K)
+            elif rest:
+                K2["fall"] = lambda env2: self.block(rest, env2, K)
+            then = self.block(s.body, env.copy(), K2)
+            els = self.block(s.orelse, env.copy(), K2)
+            return self.wrap(binds, ["if %s then" % c] + _ind(then) + ["else"] + _ind(els))
+        if isinstance(s, (ast.While, ast.For)):
+            if s.orelse:
+                raise TranslationError("%s: loop with an else clause" % nm)
+            if "cont" in K:
+                raise TranslationError("%s: nested loops are outside the subset (line %d)" % (nm, s.lineno))
+            return self.loop(s, rest, env, K)
+        raise TranslationError("%s: unsupported statement %s (line %d)" % (nm, type(s).__name__, s.lineno))
+
+    def state_binders(self, state, env):
+        return " ".join("(%s : %s)" % (lean_ident(v), LTY[env.vars[v]]) for v in state)
+
+    def make_after(self, rest, env, K, n=None):
+        """code after a loop (or after an `if` that is followed by a loop) as its own definition"""
+        if n is None:
+            self.nloop += 1
+            n = self.nloop
+        aname = "%s.after%d" % (self.name, n)
+        state = list(env.vars)
+        body = self.block(rest, env.fresh_scope(), K)
+        hdr = "def %s %s : %s :=" % (aname, " ".join(x for x in [self.param_binders(), self.state_binders(state, env)] if x), self.R())
+        self.defs.append("\n".join([hdr] + _ind(body)))
+        return lambda env2: ["%s %s" % (aname, self.call(aname, [], state, env2))]
+
+    def loop(self, s, rest, env, K):
+        nm = self.name
+        self.nloop += 1
+        n = self.nloop            # the loop shares the number of its continuation
+        after = self.make_after(rest, env, K, n)
+        lname = "%s.loop%d" % (nm, n)
+        state = list(env.vars)
+        inner = env.fresh_scope()
+        if isinstance(s, ast.While):
+            self.need_partial("while")
+            fuel = self.fuel_for(s, n)
+            rec = lambda env2: ["%s %s" % (lname, self.call(lname, ["fuel_"], state, env2))]
+            KL = {"fall": rec, "cont": rec, "brk": after}
+            binds = []
+            c = self.cond(s.test, inner, binds)
+            body = self.block(s.body, inner.copy(), KL)
+            core = self.wrap(binds, ["if %s then" % c] + _ind(body) + ["else"] + _ind(after(inner)))
+            hdr = "def %s %s (fuel_ : Nat) %s : %s :=" % (lname, self.param_binders(), self.state_binders(state, env), self.R())
+            lines = [hdr, "  match fuel_ with", "  | 0 => none", "  | fuel_ + 1 =>"] + _ind(core, 2)
+            self.defs.append("\n".join(lines))
+            return ["%s %s" % (lname, self.call(lname, ["(%s %s)" % (fuel, self.param_names())], state, env))]
+        # for
+        if not isinstance(s.target, ast.Name):
+            raise TranslationError("%s: for-loop target must be a name" % nm)
+        var = s.target.id
+        if var in env.vars or any(p == var for p, _ in self.params):
+            raise TranslationError("%s: loop variable %s shadows a variable" % (nm, var))
+        binds = []
+        it = s.iter
+        loopvars = {var}
+        if isinstance(it, ast.Call) and isinstance(it.func, ast.Name) and it.func.id == "range" and 1 <= len(it.args) <= 2:
+            args = [self.ex(a, env, binds) for a in it.args]
+            if any(t != "Int" for _, t in args):
+                raise TranslationError("%s: range bounds must be ints" % nm)
+            lo, hi = ("0", args[0][0]) if len(args) == 1 else (args[0][0], args[1][0])
+            it_txt, et = "(pyRange %s %s)" % (lo, hi), "Int"
+        else:
+            it_txt, ity = self.ex(it, env, binds)
+            if ity not in LELEM:
+                raise TranslationError("%s: iteration over %s" % (nm, ity))
+            et = LELEM[ity]
+            if isinstance(it, ast.Name):
+                loopvars.add(it.id)
+        rec = lambda env2: ["%s %s" % (lname, self.call(lname, ["it_"], state, env2))]
+        KL = {"fall": rec, "cont": rec, "brk": after, "loopvars": loopvars}
+        benv = inner.copy()
+        benv.vars[var] = et
+        body = self.block(s.body, benv, KL)
+        hdr = "def %s %s (it_ : List %s) %s : %s :=" % (lname, self.param_binders(), LTY[et], self.state_binders(state, env), self.R())
+        lines = [hdr, "  match it_ with", "  | [] =>"] + _ind(after(inner), 2) + ["  | %s :: it_ =>" % lean_ident(var)] + _ind(body, 2)
+        self.defs.append("\n".join(lines))
+        return self.wrap(binds, ["%s %s" % (lname, self.call(lname, [it_txt], state, env))])
+
+    def fuel_for(self, s, n):
+        """bound on the number of evaluations of the loop head, as a function of the parameters"""
+        fname = "%s.fuel%d" % (self.name, n)
+        self.nwhile = getattr(self, "nwhile", 0) + 1
+        override = self.sig.get("fuel", {}).get(self.nwhile)       # keyed by the ordinal of the while loop in the source
+        lists = [p for p, t in self.params if t in LELEM]
+        if override is not None:
+            body, how = override, "given in LOOP_SIGS"
+        else:
+            used = []
+            for x in ast.walk(s.test):
+                if isinstance(x, ast.Call) and isinstance(x.func, ast.Name) and x.func.id == "len" and len(x.args) == 1 \
+                        and isinstance(x.args[0], ast.Name) and x.args[0].id in lists and x.args[0].id not in used:
+                    used.append(x.args[0].id)
+            how = "lengths compared in the loop condition" if used else "no length in the loop condition: all list parameters"
+            used = used or lists
+            if not used:
+                raise TranslationError("%s: cannot derive a bound for the while loop (line %d)" % (self.name, s.lineno))
+            body = " + ".join("%s.length" % lean_ident(u) for u in used) + " + 1"
+        self.defs.append("/-- fuel of `%s.loop%d` (%s) -/\ndef %s %s : Nat := %s" % (self.name, n, how, fname, self.param_binders(), body))
+        self.fuels.append({"loop": n, "bound": body, "how": how})
+        return fname
+
+    def translate(self):
+        argnames = (["inf_"] if self.sig.get("inf") else []) + [a.arg for a in self.fn.args.args]
+        if argnames != [p for p, _ in self.params]:
+            raise TranslationError("%s: parameters %s, expected %s" % (self.name, argnames, [p for p, _ in self.params]))
+        if self.fn.args.defaults or self.fn.args.vararg or self.fn.args.kwarg or self.fn.args.kwonlyargs:
+            raise TranslationError("%s: unsupported parameter kinds" % self.name)
+        def no_return(env):
+            raise TranslationError("%s: a path ends without return" % self.name)
+        body = self.block(self.fn.body, LEnv(), {"fall": no_return})
+        hdr = "def %s %s : %s :=" % (self.name, self.param_binders(), self.R())
+        self.defs.append("\n".join([hdr] + _ind(body)))
+        text = "\n\n".join(self.defs)
+        if text.count("\n") > 600:
+            raise TranslationError("%s: translation too large (%d lines): too many paths" % (self.name, text.count("\n")))
+        return text
+
+
+LOOP_SIGS = collections.OrderedDict([
+    ("intervals_total_length", {"params": [("sorted_range_list", "ListIv")], "ret": "Int"}),
+    ("sum_intervals_to_point", {"params": [("sorted_range_list", "ListIv"), ("pos", "Int")], "ret": "Int"}),
+    ("sum_intervals_from_point", {"params": [("sorted_range_list", "ListIv"), ("pos", "Int")], "ret": "Int"}),
+    ("junctions_from_blocks", {"params": [("sorted_blocks", "ListIv")], "ret": "ListIv", "locals": {"junctions": "ListIv"}}),
+    ("read_coverage_fraction", {"params": [("read_range_list", "ListIv"), ("isoform_range_list", "ListIv")], "ret": "Frac"}),
+    ("jaccard_similarity", {"params": [("sorted_range_list1", "ListIv"), ("sorted_range_list2", "ListIv")], "ret": "Frac"}),
+    ("merge_ranges", {"params": [("sorted_range_list1", "ListIv"), ("sorted_range_list2", "ListIv")], "ret": "ListIv",
+                      "locals": {"union": "ListIv"}}),
+    ("extra_exon_percentage", {"params": [("isoform_region", "Iv"), ("read_exons", "ListIv")], "ret": "Frac"}),
+    # `math.inf` (the two sentinels of get_exons) is translated as an ARBITRARY integer parameter `inf_`: the refinement
+    # theorem quantifies over it, i.e. proves that the result does not depend on the sentinel values
+    ("get_exons", {"params": [("read_region", "Iv"), ("read_introns", "ListIv")], "ret": "ListIv", "inf": True}),
+    ("get_following_exon_from_junctions", {"params": [("region", "Iv"), ("introns", "ListIv"), ("intron_position", "Int")], "ret": "Iv"}),
+    ("get_preceding_exon_from_junctions", {"params": [("region", "Iv"), ("introns", "ListIv"), ("intron_position", "Int")], "ret": "Iv"}),
+    ("get_exon", {"params": [("read_region", "Iv"), ("read_junctions", "ListIv"), ("exon_position", "Int")], "ret": "Iv"}),
+    ("interval_bin_search", {"params": [("ordered_intervals", "ListIv"), ("pos", "Int")], "ret": "Int",
+                             "fuel": {1: "2 * ordered_intervals.length + 2"}}),
+    ("interval_bin_search_rev", {"params": [("ordered_intervals", "ListIv"), ("pos", "Int")], "ret": "Int",
+                                 "fuel": {1: "2 * ordered_intervals.length + 2"}}),
+    ("truncate_read_to_polya", {"params": [("read_exons", "ListIv"), ("polya_pos", "Int"), ("polyt_pos", "Int")], "ret": "ListIv"}),
+    # C16: the CIGAR walk (cigar tuples are (code, length) pairs; CigarEvent(code) raises on an unknown code)
+    ("concat_gapless_blocks", {"params": [("blocks", "ListIv"), ("cigar_tuples", "ListIv")], "ret": "ListIv", "cigar": True,
+                               "locals": {"resulting_blocks": "ListIv", "current_block": "OptIv"}}),
+    ("get_read_blocks", {"params": [("ref_start", "Int"), ("cigar_tuples", "ListIv")], "ret": "ListIv3", "cigar": True,
+                         "locals": {"ref_blocks": "ListIv", "cigar_blocks": "ListIv", "read_blocks": "ListIv",
+                                    "current_ref_block_start": "OptInt", "current_read_block_start": "OptInt",
+                                    "current_cigar_block_start": "OptInt"}}),
+])
+
+
+def translate_loop_function(tree, name, sig, known):
+    fn = find_def(tree, name)
+    try:
+        text, part, fuels = None, False, []
+        tr = LoopFn(name, fn, sig, False, known)
+        text = tr.translate()
+        fuels = tr.fuels
+    except NeedPartial:
+        tr = LoopFn(name, fn, sig, True, known)
+        text = tr.translate()
+        part, fuels = True, tr.fuels
+    return text, part, fuels
+
+
+_OPS_IN = {"Int": "jInt", "ListIv": "jIvList", "Iv": "jIv", "ListInt": "jList jInt"}
+_OPS_OUT = {"Int": "ofInt", "ListIv": "ofIvList", "Iv": "ofIv", "ListInt": "ofIntList", "Bool": "ofBool", "Frac": "ofIv",
+            "ListIv3": "(fun (r : List (Int × Int) × List (Int × Int) × List (Int × Int)) => Json.arr #[ofIvList r.1, ofIvList r.2.1, ofIvList r.2.2])"}
+
+
+def gen_loops_rt():
+    """run-time helpers of the translated loop functions (constant text; its own file so that the C19 and the C16
+    translations do not depend on each other)"""
+    out = ["-- GENERATED by harness/translate.py (run-time helpers of Gen/Loops.lean, Gen/LoopsCigar.lean) -- do not edit",
+           "import IsoVerif.Gen.Prims", "namespace IsoVerif.Gen", "", LOOPS_PRELUDE, "end IsoVerif.Gen\n"]
+    return "\n".join(out), {}
+
+
+def gen_loops_all(group):
+    """group 'c19': the interval functions -> Gen/Loops.lean, Gen/LoopsOps.lean;
+       group 'c16': the CIGAR walkers -> Gen/LoopsCigar.lean, Gen/LoopsCigarOps.lean"""
+    tree = parse("src/common.py")
+    cig = group == "c16"
+    mod = "LoopsCigar" if cig else "Loops"
+    out = ["-- GENERATED by harness/translate.py from /repo/src/common.py -- do not edit",
+           "import IsoVerif.Gen.LoopsRt"] + (["import IsoVerif.Gen.Enums", "import IsoVerif.Gen.CigarClasses"] if cig else []) + \
+          ["set_option linter.unusedVariables false", "namespace IsoVerif.Gen", ""] + ([LOOPS_CIGAR_PRELUDE] if cig else [])
+    cigar_members = [m for m, _ in enum_members(find_def(tree, "CigarEvent"))]
+    for nm_ in ("get_match_events", "get_ins_del_match_events"):
+        find_def(tree, nm_, "CigarEvent")       # the membership tables themselves are Gen/CigarClasses.lean
+    ops = ["-- GENERATED by harness/translate.py (driver handlers of Gen/%s.lean) -- do not edit" % mod,
+           "import IsoVerif.Driver.Core", "import IsoVerif.Gen.%s" % mod, "namespace IsoVerif.Driver.Gen%sOps" % mod,
+           "open Lean IsoVerif.Driver IsoVerif.Gen", "", "def ops : List (String × Handler) := ["]
+    known = {}
+    info = {"functions": {}}
+    rows = []
+    for name, sig in LOOP_SIGS.items():
+        if bool(sig.get("cigar")) != cig:
+            continue
+        if sig.get("cigar"):
+            sig = dict(sig, cigar_members=cigar_members)
+        text, part, fuels = translate_loop_function(tree, name, sig, known)
+        known[name] = ((["Inf"] if sig.get("inf") else []) + [t for _, t in sig["params"]], sig["ret"], part)
+        out.append("/-! ### `%s` (%s) -/\n" % (name, "Option: none = the Python function raises" if part else "total"))
+        out.append(text + "\n")
+        info["functions"][name] = {"partial": part, "params": sig["params"], "ret": sig["ret"], "fuel": fuels,
+                                   "inf": bool(sig.get("inf"))}
+        allp = ([("inf_", "Int")] if sig.get("inf") else []) + list(sig["params"])
+        reads = "".join("    let %s ← arg j \"%s\" >>= %s\n" % (lean_ident(p), p, _OPS_IN[t]) for p, t in allp)
+        callx = "%s %s" % (name, " ".join(lean_ident(p) for p, _ in allp))
+        if part:
+            res = "    pure (match %s with | none => jErr \"error\" | some r => %s r)" % (callx, _OPS_OUT[sig["ret"]])
+        else:
+            res = "    pure (%s (%s))" % (_OPS_OUT[sig["ret"]], callx)
+        rows.append("  (\"%s\", fun j => do\n%s%s)" % (name, reads, res))
+    out.append("end IsoVerif.Gen\n")
+    ops.append(",\n".join(rows))
+    ops.append("]\n\nend IsoVerif.Driver.Gen%sOps\n" % mod)
+    return "\n".join(out), "\n".join(ops), info
+
+
+_loops_cache = {}
+
+
+def _loops_once(group):
+    if group not in _loops_cache:
+        try:
+            _loops_cache[group] = gen_loops_all(group)
+        except TranslationError as ex:
+            _loops_cache[group] = ex
+    if isinstance(_loops_cache[group], Exception):
+        raise _loops_cache[group]
+    return _loops_cache[group]
+
+
+def gen_loops():
+    text, _, info = _loops_once("c19")
+    return text, info
+
+
+def gen_loops_ops():
+    _, ops, info = _loops_once("c19")
+    return ops, {"ops": sorted(info["functions"])}
+
+
+def gen_loops_cigar():
+    text, _, info = _loops_once("c16")
+    return text, info
+
+
+def gen_loops_cigar_ops():
+    _, ops, info = _loops_once("c16")
+    return ops, {"ops": sorted(info["functions"])}
+
+
 GENERATORS = [("Prims", gen_prims), ("Enums", gen_enums), ("EventClasses", gen_event_classes),
               ("Strategies", gen_strategies), ("Constants", gen_constants), ("SharedState", gen_shared_state),
               ("SetSites", gen_set_sites),            # C06
@@ -3267,6 +4071,9 @@ GENERATORS = [("Prims", gen_prims), ("Enums", gen_enums), ("EventClasses", gen_e
               ("CigarClasses", gen_cigar_classes),    # C16
               ("Resolver", gen_resolver),             # C08
               ("ModelConstruction", gen_model_construction),   # C04
+              ("LoopsRt", gen_loops_rt),                           # run-time helpers of the translated loop functions
+              ("Loops", gen_loops), ("LoopsOps", gen_loops_ops),   # C19: loop functions of src/common.py translated from the source
+              ("LoopsCigar", gen_loops_cigar), ("LoopsCigarOps", gen_loops_cigar_ops),   # C16: the CIGAR walkers, likewise
               ("ComparatorTables", gen_comparator_tables),     # C01 (compare_junctions)
               ("GtfFormat", gen_gtf_format),          # C03 (text of the GTF lines)
               ("PrinterTables", gen_printer_tables),           # C15 / C05 / C08 (read-level printers)
